@@ -48,6 +48,8 @@ FORMS = {
     "property": "@property\n    def {n}(self) -> int: return 0", "method": "def {n}(self): ...", "dotted-field": "{n}: int = dataclasses.field(default=0)",
     "field(default=MISSING)": "{n}: int = field(default=dataclasses.MISSING)",
     "ClassVar-bare": "{n}: ClassVar = 0", "typing.ClassVar": "{n}: typing.ClassVar[int] = 0",
+    # the sentinel itself as class-level value, without field(): no default for CPython (the way to make an inherited defaulted field required again)
+    "bare-MISSING": "{n}: int = dataclasses.MISSING",
 }
 FORM_NAMES = list(FORMS)
 DECOS = {
@@ -249,7 +251,7 @@ CATEGORY = {
     # F init field, N field(init=False), I InitVar, C ClassVar, U other class attribute, K marker; "=" leaves a class-level value, "k" keyword-only
     "plain": "F", "default": "F=", "field()": "F", "field(default)": "F=", "field(factory)": "F=", "field(kw_only)": "Fk", "field(default,kw_only)": "Fk=", "field(kw_only=False)": "Fnk",
     "dotted-field": "F=", "InitVar": "I", "InitVar=": "I=", "field(init=False)": "N", "field(init=False,default)": "N=", "ClassVar": "C=",
-    "unannotated": "U=", "method": "U=", "property": "U=", "KW_ONLY": "K", "field(default=MISSING)": "Fm", "ClassVar-bare": "C=", "typing.ClassVar": "C=",
+    "unannotated": "U=", "method": "U=", "property": "U=", "KW_ONLY": "K", "field(default=MISSING)": "Fm", "bare-MISSING": "Fm", "ClassVar-bare": "C=", "typing.ClassVar": "C=",
 }
 
 
@@ -385,8 +387,10 @@ XM_IMPORTS = {"from-import": ("from .base import Base, Mixin\n", "Mixin, Base"),
 def _xm_cases():
     for al in XM_ALLS:
         for imp in XM_IMPORTS:
-            for deco in ("own-import", "through-wildcard"):
+            for deco in ("own-import", "through-wildcard", "through-compat-module"):
                 if deco == "through-wildcard" and (imp != "wildcard" or al == "all-classes"):
+                    continue
+                if deco == "through-compat-module" and al != "no-all":
                     continue
                 for grand in ("from-import", "wildcard"):
                     for init in ("empty", "wildcard"):
@@ -398,10 +402,14 @@ def _xm_files(case):
     base = ("import dataclasses\nfrom dataclasses import dataclass, field, KW_ONLY\n" + XM_ALLS[al] +
             "@dataclass\nclass Base:\n    a: int\n    b: int = 0\n    _: KW_ONLY\n    k: int = 1\n@dataclass\nclass Mixin:\n    m: int = 5\n")
     istmt, bases = XM_IMPORTS[imp]
-    child = istmt + ("from dataclasses import dataclass\n" if deco == "own-import" else "") + f"@dataclass\nclass Child({bases}):\n" + ("    c: int = 2\n" if deco == "own-import" else "    c: int = field(default=2)\n    _: KW_ONLY\n    d: int = 3\n") + f"class Plain({bases.split(', ')[1]}):\n    pass\n"
+    if deco == "through-compat-module":
+        # every module takes the decorator from a compatibility module of the package, which imports it from dataclasses
+        base = base.replace("from dataclasses import dataclass, field, KW_ONLY\n", "from ._compat import dataclass, field, KW_ONLY\n")
+    child = istmt + ("from dataclasses import dataclass\n" if deco == "own-import" else "from pkg_c18x._compat import dataclass, field, KW_ONLY\n" if deco == "through-compat-module" else "") + f"@dataclass\nclass Child({bases}):\n" + ("    c: int = 2\n" if deco == "own-import" else "    c: int = field(default=2)\n    _: KW_ONLY\n    d: int = 3\n") + f"class Plain({bases.split(', ')[1]}):\n    pass\n"
     gimp = "from .child import Child\n" if grand == "from-import" else "from .child import *\n"
     grand_src = gimp + "import dataclasses\n@dataclasses.dataclass\nclass Grand(Child):\n    g: int = 3\n"
-    return {"pkg_c18x/__init__.py": "" if init == "empty" else "from .grand import *\nfrom .child import *\n", "pkg_c18x/base.py": base, "pkg_c18x/child.py": child, "pkg_c18x/grand.py": grand_src}
+    return {"pkg_c18x/__init__.py": "" if init == "empty" else "from .grand import *\nfrom .child import *\n", "pkg_c18x/base.py": base, "pkg_c18x/child.py": child, "pkg_c18x/grand.py": grand_src,
+            "pkg_c18x/_compat.py": "from dataclasses import dataclass, field, KW_ONLY\n"}
 
 
 def _run_xm(griffe, acc, only=None):
